@@ -1545,6 +1545,9 @@ def run(ctx):
         "(one local instance) as a dict topic -> value: set overwrites, setDefault writes only where there is no "
         "value, every entry/publisher/subscriber of the instance sees the same value at once")
     ctx.prove()
+    # ---- the source's definitions, translated again and proved equal to the model's ---------------
+    from . import c12_translate
+    c12_translate.obligation(ctx)
     sm, mt = impl()
     SM = sm.StateMachine
     # ---- regenerated data ---------------------------------------------
